@@ -204,7 +204,9 @@ func (propC14) Gen(r *Rng, run uint64, tier string) *Plan {
 	if !sweep {
 		switch x := r.Intn(100); {
 		case x < 6:
-			spec.NMin, spec.NMax, spec.RecMax = 7, 16, 5
+			spec.NMin, spec.NMax, spec.RecMax = 7, 24, 5
+		case x < 7:
+			spec.NMin, spec.NMax, spec.RecMax = 30, 70, 2
 		case x < 12:
 			spec.RecMax = 60
 		case x < 15:
@@ -330,6 +332,12 @@ func (propC14) Gen(r *Rng, run uint64, tier string) *Plan {
 				class = "end"
 			}
 			f.DelayMs = 1 + fr.Intn(3000)
+			switch {
+			case kind == FaultCut && fr.Bool(0.4):
+				f.ErrKind = "unexpected"
+			case kind == FaultReadError:
+				f.ErrKind = []string{"", "", "deadline", "closed"}[fr.Intn(4)]
+			}
 			p.Tags["pos"] = class
 			p.Tags["frame"] = fmt.Sprint(fi)
 		case FaultFrame:
@@ -482,7 +490,11 @@ func (propC14) Expand(t *testing.T, p *Plan) []*Plan {
 		for off := 0; off <= len(l.Data); off++ {
 			class, _ := l.Classify(off)
 			if off < len(l.Data) {
-				out = append(out, mk(Fault{Kind: FaultCut, Container: oc.ID, Open: oc.OpenIdx, Offset: off}, class, nil))
+				ek := ""
+				if p.Run%2 == 1 {
+					ek = "unexpected"
+				}
+				out = append(out, mk(Fault{Kind: FaultCut, Container: oc.ID, Open: oc.OpenIdx, Offset: off, ErrKind: ek}, class, nil))
 			}
 			if off == len(l.Data) {
 				class = "end"
